@@ -224,3 +224,36 @@ class TimeoutCall(Contract):
 
 
 CONTRACTS = [TimeoutCall()]
+
+
+class TimeoutFactory(Contract):
+    """timeout(t)._wrap: how the configured timeout reaches the wrapper object."""
+    file, func, name = FILE, "timeout._wrap", "C16/timeouted:timeout._wrap"
+    props = ("C16",)
+
+    def instantiate(self, it, info, cargs, node):
+        if info.name == "_AsyncTimeout":
+            self.made.append(cargs)
+            return it.st.alloc(info.cid)
+        return None
+
+    def setup(self, it, env):
+        st = it.st
+        self.made = []
+        self.fn = st.reg_fun(OracleV("function", is_async=True))
+        self.tmo = st.fresh_val("timeout")
+        env.vars.update(timeout=self.tmo)
+        return None, CallArgs([self.fn])
+
+    def on_return(self, it, ret):
+        ok = len(self.made) == 1
+        it.st.check("P6:one-timeout-wrapper-around-the-function-with-the-configured-timeout",
+                    z3.BoolVal(ok) if not ok else
+                    z3.And(z3.BoolVal(len(self.made[0].pos) == 1) if len(self.made[0].pos) != 1 else self.made[0].pos[0] == self.fn,
+                           (self.made[0].kw.get("timeout") if "timeout" in self.made[0].kw else V.VNone) == self.tmo))
+
+    def on_raise(self, it, exc):
+        it.st.check("P6:building-the-timeout-wrapper-never-raises", z3.BoolVal(False))
+
+
+CONTRACTS = CONTRACTS + [TimeoutFactory()]
